@@ -327,6 +327,43 @@ var shapes = []shapeGen{
 	{"while-true", func(n int) string { return "def f():\n    while True:\n        pass\nf()\n" }},
 }
 
+// boundaryNumerals are decimal digit strings around every width a parser might accumulate into.
+var boundaryNumerals = []string{
+	"0", "1", "00", "007", "9", "255", "256", "32767", "32768", "65535", "65536",
+	"2147483647", "2147483648", "4294967295", "4294967296", "4294967297",
+	"9223372036854775807", "9223372036854775808", "9223372036854775809", "9999999999999999999",
+	"10000000000000000000", "18446744073709551615", "18446744073709551616", "18446744073709551617",
+	"99999999999999999999", "340282366920938463463374607431768211456",
+	"0000000000000000000000000000000000000001", "1" + strings.Repeat("0", 400),
+}
+
+// numeralTemplates are statements in which N is replaced by each boundary numeral.
+var numeralTemplates = []string{
+	`x = "{N}".format("a")`, `x = "{N}".format()`, `x = "{N}{}".format("a", "b")`, `x = "{}{N}".format("a", "b")`,
+	`x = "{N.a}".format("a")`, `x = "{N[0]}".format("a")`, `x = "{0[N]}".format([1, 2])`, `x = "{0[-N]}".format([1, 2])`,
+	`x = "{N!r}".format("a")`, `x = "{N:}".format("a")`, `x = "{a[N]}".format(a = "s")`, `x = "{-N}".format("a")`,
+	`x = "{ N }".format("a")`, `x = "{+N}".format("a")`, `x = "{N}" % ()`, `x = "%(N)s" % {"N": 1}`,
+	`x = "%Nd" % 1`, `x = "%.Nf" % 1.0`, `x = "%-Ns" % "a"`, `x = "%N$s" % "a"`, `x = "%c" % N`, `x = "%c" % -N`,
+	`x = "%x %o %d %e" % (N, N, N, N)`, `x = int("N")`, `x = int("-N")`, `x = int("0xN", 16)`, `x = int("N", N)`,
+	`x = int("N", 36)`, `x = int("z", N)`, `x = int("1", -N)`, `x = float("N")`, `x = float("1eN")`, `x = float("1e-N")`,
+	`x = float("N.NeN")`, `x = float("0xNpN")`, `x = 1eN`, `x = 0xN`, `x = 0oN`, `x = 0b1N`,
+	`x = json.decode("N")`, `x = json.decode("-N")`, `x = json.decode("[N]")`, `x = json.decode("1eN")`, `x = json.decode("1e-N")`,
+	`x = json.decode("N.N")`, `x = json.decode('"\\uN"')`, `x = json.decode("{\"N\": N}")`, `x = json.encode(N)`, `x = json.indent("[N]", indent = " " * (N % 70000))`,
+	`x = time.parse_duration("Nh")`, `x = time.parse_duration("Nns")`, `x = time.parse_duration("N.Ns")`, `x = time.parse_duration("-NhNmNs")`,
+	`x = time.from_timestamp(N)`, `x = time.from_timestamp(-N, N)`, `x = time.time(year = N)`, `x = time.time(month = N, day = -N)`,
+	`x = time.time(nanosecond = N)`, `x = time.parse_time("N", format = "2006")`, `x = time.parse_time("N", format = "N")`,
+	`x = time.from_timestamp(0).format("N.000000000 2006 N")`, `x = time.from_timestamp(0) + time.parse_duration("Nh")`,
+	`x = "\xN"`, `x = "\N"`, `x = "\uN"`, `x = "\UN"`, `x = b"\N"`, `x = "a" * N`, `x = [1] * -N`, `x = "abc"[N:]`, `x = "abc"[-N::N]`, `x = "abc"[::-N]`,
+	`x = range(N)[N - 1]`, `x = range(-N, N, N)[-1]`, `x = len(range(-N, N))`, `x = N in range(N)`, `x = list(range(N, N + 3))`,
+	`x = 1 << (N % 100000)`, `x = N >> N`, `x = -N >> N`, `x = N // -1`, `x = -N % N`, `x = float(N)`, `x = int(float(N))`, `x = N * 1.0 == N`,
+	`x = chr(N)`, `x = chr(-N)`, `x = "abc".elems()[N % 3]`, `x = "a,b".split(",", N)`, `x = "a,b".rsplit(",", -N)`, `x = "aaa".replace("a", "b", N)`,
+	`x = "aaa".replace("a", "b", -N)`, `x = "abc".find("b", N)`, `x = "abc".rindex("b", -N, N)`, `x = "abc".count("", -N, N)`, `x = "abc".startswith("a", N)`,
+	`x = [1, 2, 3].index(2, -N, N)`, `x = [1, 2].insert(N, 0)`, `x = [1, 2].insert(-N, 0)`, `x = [1, 2].pop(N)`, `x = [1, 2].pop(-N)`,
+	`x = list(enumerate([1], N))`, `x = list(enumerate([1], -N))`, `x = hash("N")`, `x = math.round(N)`, `x = math.pow(N, N)`, `x = math.gamma(N)`,
+	`x = math.floor(N + 0.5)`, `x = math.ceil(-N - 0.5)`, `x = math.mod(N, 3)`, `x = math.log(N, N)`, `x = int(math.pow(2, N % 2000))`,
+	`x = bytes([N % 256])`, `x = bytes([N])`, `x = b"abc"[N % 3]`, `x = str(N)[N % 5:]`, `x = ("%d" % N) == str(N)`,
+}
+
 var eofTokens = []string{"x = (", "x = [1,", "x = {1:", "def", "def f", "def f(", "def f(a", "def f(a,", "def f(a=", "def f():", "def f():\n", "def f():\n  ", "lambda", "lambda x", "lambda:", "if", "if x", "if x:", "for", "for x", "for x in", "for x in y:", "x =", "x +=", "x = 1 +", "x = not", "x = -", "x = 1 if", "x = 1 if 2", "x = 1 if 2 else", "x.", "x[", "x[1:", "x[1:2:", "f(", "f(a=", "f(*", "f(**", "load", "load(", "load('a'", "load('a',", "load('a', b=", "'", "\"", "'''", "b'", "r'", "'\\", "'\\x", "'\\x4", "'\\u", "'\\U0001", "'\\1", "0x", "0b", "0o", "1e", "1e+", "1.", ".", "x = 1 \\", "#", "return", "break", "pass;", "while", "while x", "x = [1 for", "x = [1 for a", "x = [1 for a in", "x = [1 for a in b if", "x = {1: 2 for", "@", "$", "?", "`", "!", "x = 1 ! 2", "x ==", "x <", "x <<", "x <<=", "x = a not", "x = a not i", "x = a is b", "\t", " ", "\r", "\n\n  \n", "\\"}
 
 func fileOptsLoad(th *starlark.Thread) {
@@ -433,6 +470,18 @@ func armTexts(c *driver.Ctx) {
 		}
 		runText(c, "call-form", src, 63)
 		c.Distinct(fmt.Sprintf("callform/%d", i))
+	}
+	// (2d) numerals at machine-integer boundaries inside every mini-language a built-in parses
+	// (format fields, % templates, int/float literals in strings, JSON text, durations, escapes)
+	for ti, tmpl := range numeralTemplates {
+		for ni, num := range boundaryNumerals {
+			if !c.Take() {
+				continue
+			}
+			runText(c, "numeral "+tmpl, strings.ReplaceAll(tmpl, "N", num)+"\n", []int{63, 0}[(ti+ni)%2])
+			c.Distinct(fmt.Sprintf("numeral/%d/%d", ti, ni))
+		}
+		c.Cover("numeral_templates", tmpl)
 	}
 	// (2c) generated semantic programs with deliberate misuse (arity, kinds, unpacking), random options
 	ng := c.Pick(600, 20000)
